@@ -196,7 +196,8 @@ template <class S> void size_profiles(vf::Ctx& c, const char* tname) {
   { std::vector<int> v; for (int i = 0; i < 16; ++i) v.push_back(8 + 33 * i); profiles.push_back(v); }                 // growing
   // held: the caller keeps the references returned by getJ() / getY() / getW() from before the first problem (the members stay the same objects
   // across setDataSize); illCond: every third problem is ill-conditioned (kappa 1e5 in double, 1e2 in float)
-  for (int p : {2, 3, 6}) for (size_t ip = 0; ip < profiles.size(); ++ip) for (int prec = 0; prec < 2; ++prec) for (int pattern = 0; pattern < 4; ++pattern) for (int held = 0; held < 2; ++held) for (int illCond = 0; illCond < 2; ++illCond) {
+  for (int p : {2, 3, 6}) for (size_t ip = 0; ip < profiles.size(); ++ip) for (int prec = 0; prec < 2; ++prec) for (int pattern = 0; pattern < 4; ++pattern) for (int held = 0; held < 2; ++held) for (int illCond = 0; illCond < 2; ++illCond) for (int colScale = 0; colScale < 2; ++colScale) {
+    if (colScale && (illCond || held)) continue;
     LeastSquares<S> ls(p);
     auto& Jheld = ls.getJ(); auto& Yheld = ls.getY(); auto& Wheld = ls.getW();
     Vec A(p), b(p); for (int j = 0; j < p; ++j) { A(j) = (S)(j % 2 ? 0.5 : 3.0); b(j) = (S)(0.25 * (j + 1)); }
@@ -207,6 +208,9 @@ template <class S> void size_profiles(vf::Ctx& c, const char* tname) {
       int solver = pattern == 2 ? (int)(i % 2) : pattern == 3 ? 0 : pattern;
       long double kap = (illCond && i % 3 == 2 && p > 1) ? (std::is_same<S, double>::value ? 1e5L : 1e2L) : 3;
       Problem<S> P = make_problem<S>(n, p, kap, 1, 1, pattern == 3 ? 1 : 0, 0, (int)i + 1);
+      if (colScale && p > 1) {   // one column much larger than the others, a different column (and factor) from problem to problem: 2e4, 5e3, none, 5e3, 2e4 ...
+        const double f[5] = {2e4, 5e3, 1, 5e3, 2e4}; const int col[5] = {0, 1, 0, 0, 1}; if (std::is_same<S, double>::value) P.J.col(col[i % 5]) *= (S)f[i % 5]; else P.J.col(col[i % 5]) *= (S)std::sqrt(f[i % 5]);
+      }
       if (held) {
         ls.setDataSize(n);
         S nan = std::numeric_limits<S>::quiet_NaN(); Jheld.setConstant(nan); Yheld.setConstant(nan); Wheld.setConstant(nan);
@@ -220,7 +224,7 @@ template <class S> void size_profiles(vf::Ctx& c, const char* tname) {
       long double d = x.template cast<long double>().allFinite() ? (x - xf).template cast<long double>().norm() : HUGE_VALL;
       long double tol = 256 * eps * 9 * (1 + xf.template cast<long double>().norm());
       if (!(d <= tol)) {
-        c.violation("LeastSquares.dependsOnHistory", vf::JO().str("type", tname).str("explorer", "size profiles").i("estimate_size", p).vec("data_sizes", std::vector<int>(profiles[ip].begin(), profiles[ip].begin() + i + 1)).b("preconditioner_set_once", prec).b("references_to_J_Y_W_held_from_the_start", held).b("every_third_problem_ill_conditioned", illCond).str("solvers", pattern == 0 ? "Cholesky" : pattern == 1 ? "SVD" : pattern == 2 ? "alternating" : "weighted").done(), vf::JO().num("difference_vs_fresh", d).num("tol", tol).done());
+        c.violation("LeastSquares.dependsOnHistory", vf::JO().str("type", tname).str("explorer", "size profiles").i("estimate_size", p).vec("data_sizes", std::vector<int>(profiles[ip].begin(), profiles[ip].begin() + i + 1)).b("preconditioner_set_once", prec).b("references_to_J_Y_W_held_from_the_start", held).b("every_third_problem_ill_conditioned", illCond).b("one_dominant_column_changing_from_problem_to_problem", colScale).str("solvers", pattern == 0 ? "Cholesky" : pattern == 1 ? "SVD" : pattern == 2 ? "alternating" : "weighted").done(), vf::JO().num("difference_vs_fresh", d).num("tol", tol).done());
         break;
       }
     }
@@ -276,7 +280,7 @@ std::string vf_describe(const std::string& tier) {
   vf::JO o;
   o.str("L", "estimate size 1..8 x data size {p,p+1,2p,50,500,31,32,64,257} x kappa {1,1e2,3e2,1e4,1e6} x magnitude {2^-27,2^-10,1,2^10} (float {2^-13,2^-6,1,2^6}) x Y {consistent, inconsistent, strongly inconsistent} x weights {none, alternating 1/4..4, one zero, one huge} x preconditioner {none, diagonal, diagonal+offset, identity+offset}; cases with 8 p kappa^2 eps > 0.5 are skipped (no digits in the normal equations)");
   o.str("L_dense_preconditioners", "non-diagonal A: generic dense, mixed-scale diagonal (2e6 / 1, 1e3 / 1e-3) with one coupling entry that is tiny only relative to the largest entry, upper triangular; estimate sizes {2,3,6}, all three solver paths; A x + b compared component by component relative to the row of A");
-  o.str("S_size_profiles", "one solver through 16-problem histories of data sizes: one big then many small (below / around a quarter), 8-500-8.., shrinking by 2/3, alternating 400/40, growing; estimate sizes {2,3,6}; preconditioner set once or never; Cholesky / SVD / alternating / weighted; J/Y/W written through references fetched per problem or held from before the first problem; every third problem optionally ill-conditioned; each answer vs a fresh solver");
+  o.str("S_size_profiles", "one solver through 16-problem histories of data sizes: one big then many small (below / around a quarter), 8-500-8.., shrinking by 2/3, alternating 400/40, growing; estimate sizes {2,3,6}; preconditioner set once or never; Cholesky / SVD / alternating / weighted; J/Y/W written through references fetched per problem or held from before the first problem; every third problem optionally ill-conditioned; optionally one dominant column (x2e4 / x5e3) that changes from problem to problem; each answer vs a fresh solver");
   o.str("L_all_sizes", "every data size from p to 500 for p = 1..8, float and double, kappa 30, inconsistent Y, weights {none, alternating}, preconditioner {none, diagonal+offset}, all three solver paths");
   o.str("L_oracle", "Householder-QR solution in long double; |x - x_ref| <= 8 p eps kappa^2 (|x|+|Y|/smax); normal-equation residual; Cholesky vs SVD path");
   o.i("S_depth", tier == "thorough" ? 4 : 3).str("S_ops", "problem(p in 1..3 (setEstimateSize when it changes), n in {p,p+2,8}, solver in {Cholesky, SVD, weighted}, preconditioner {kept, setPreconditionner(A,b), setPreconditionner(A)}) = 81 operations, plus (after the first) 'assign the solver to another long-lived solver and continue with that one' and 'continue with a copy-constructed solver'; the model tracks the configured preconditioner; buffers NaN-poisoned before each problem; result vs fresh solver within 256*9 eps");
